@@ -146,7 +146,7 @@ class Result:
             "wall_s": round(time.time() - self.t0, 3),
             "violations": nviol,
         }
-        d = VERIF / "evidence"
+        d = pathlib.Path(os.environ.get("VERIF_EVIDENCE_DIR") or (VERIF / "evidence"))   # seed/self-test runs divert their evidence
         d.mkdir(exist_ok=True)
         tmp = d / f".{self.pid}.json.tmp"
         tmp.write_text(json.dumps(ev, indent=1, default=str))
@@ -171,7 +171,7 @@ def load_known():
 
 
 def write_replay(pid, f: Finding) -> str:
-    d = VERIF / "replays"
+    d = pathlib.Path(os.environ.get("VERIF_REPLAY_DIR") or (VERIF / "replays"))
     d.mkdir(exist_ok=True)
     h = hashlib.sha256(f.key.encode()).hexdigest()[:10]
     p = d / f"{pid}-{h}.md"
